@@ -337,4 +337,59 @@ def errorJSON (code : Int) (msg : Bytes) (data : Bytes) : Bytes :=
   lit [44, 34, 109, 101, 115, 115, 97, 103, 101, 34, 58] ++ quote msg ++
   (if data = [] then [] else lit [44, 34, 100, 97, 116, 97, 34, 58] ++ data) ++ [125]
 
+/-! ### Encoding a batch of replies (server.go `tasks.responses` + `deliver` → `encode`)
+
+`json.Marshal` of an `*Error` fails exactly when its `Data` (a `json.RawMessage`) is present and
+not valid JSON; one such entry makes the encoding of the whole reply batch fail, and `deliver`
+then sends nothing. `responses` therefore drops data that cannot be encoded. -/
+
+/-- an `Error` value as the library holds it: code, message, raw data (`[]` = none) -/
+structure ErrVal where
+  code : Int
+  msg : Bytes
+  data : Bytes := []
+  deriving DecidableEq, Repr
+
+/-- `json.Marshal(e)` for `e : *Error` -/
+def marshalError (e : ErrVal) : Option Bytes :=
+  if e.data = [] ∨ valid e.data = true then some (errorJSON e.code e.msg e.data) else none
+
+/-- what `responses` puts into the reply for a handler error -/
+def sanitizeError (e : ErrVal) : ErrVal :=
+  if e.data.length ≠ 0 ∧ valid e.data = false then { code := e.code, msg := e.msg } else e
+
+/-- the outcome of one call as `responses` sees it: a marshalled result (validated when the
+handler returned) or an error value -/
+inductive ReplyOutcome
+  | result (r : Bytes)
+  | error (e : ErrVal)
+  deriving DecidableEq, Repr
+
+/-- one reply object -/
+def replyMsg (id : Bytes) (batch : Bool) : ReplyOutcome → Option OutMsg
+  | .result r => some { id := id, r := r, batch := batch }
+  | .error e => (marshalError e).map fun t => { id := id, e := some t, batch := batch }
+
+/-- the entries `responses` builds from the handlers' outcomes -/
+def sanitizeOutcome : ReplyOutcome → ReplyOutcome
+  | .result r => .result r
+  | .error e => .error (sanitizeError e)
+
+/-- the (id, entry) list `responses` hands to `deliver` -/
+def builtReplies : List (Bytes × ReplyOutcome) → List (Bytes × ReplyOutcome)
+  | [] => []
+  | (rid, o) :: rest => (rid, sanitizeOutcome o) :: builtReplies rest
+
+/-- the reply objects, or nothing if one cannot be marshalled -/
+def replyMsgs (batch : Bool) : List (Bytes × ReplyOutcome) → Option (List OutMsg)
+  | [] => some []
+  | (rid, o) :: rest =>
+    match replyMsg rid batch o, replyMsgs batch rest with
+    | some m, some ms => some (m :: ms)
+    | _, _ => none
+
+/-- `encode`: all replies of one inbound message, or nothing at all if one cannot be marshalled -/
+def encodeReplies (batch : Bool) (rs : List (Bytes × ReplyOutcome)) : Option Bytes :=
+  (replyMsgs batch rs).map toJSONs
+
 end Jrpc.Wire
